@@ -20,8 +20,9 @@ w = chk.work
 llgo = core.build_llgo(w)
 
 QUICK = chk.tier == "quick"
-NPROG = int(os.environ.get("VERIF_C03_PROGRAMS", "12" if QUICK else "300"))
-NUNITS = int(os.environ.get("VERIF_C03_UNITS", "500"))
+# an llgo build costs ~25 CPU-s whatever the program size and ~8 ms per unit on top: few large programs
+NPROG = int(os.environ.get("VERIF_C03_PROGRAMS", "6" if QUICK else "100"))
+NUNITS = int(os.environ.get("VERIF_C03_UNITS", "1000" if QUICK else "1500"))
 WORKERS = int(os.environ.get("VERIF_C03_WORKERS", "4" if QUICK else "8"))
 MAX_REPORTS = 8
 
@@ -68,6 +69,19 @@ def probe_sections(text):
     return sec
 
 
+def in_known_class(fid, ref, got):
+    """second line of defence: is the probe's failure the one the open finding describes?"""
+    if fid in ("C03-panic-value-string", "C03-typeassert-value-string"):
+        # known: the panic IS raised but its value is not a runtime.Error ("RE kind false true" for "RE kind true true")
+        if got is None or len(got) != len(ref):
+            return False
+        for a, b in zip(ref, got):
+            if a != b and not (a.startswith("RE ") and a.endswith(" true true") and b == a[:-len("true true")] + "false true"):
+                return False
+        return True
+    return True
+
+
 def run_probes():
     d = w.sub("probes")
     src = os.path.join(core.V, "progs", "c03_probes")
@@ -100,7 +114,7 @@ def run_probes():
             continue
         detail = "probe %s: go `%s` vs llgo `%s`%s" % (fid, " | ".join(rsec[fid]), " | ".join(gsec.get(fid, ["<not reached>"])),
                                                       "" if got.kind == "exit" else " (llgo probe process ended with %s rc=%s)" % (got.kind, got.rc))
-        if chk.is_open(fid):
+        if chk.is_open(fid) and in_known_class(fid, rsec[fid], gsec.get(fid)):
             chk.known(fid, detail)
             for t in AVOID_TAGS.get(fid, []):
                 if t not in avoid:
@@ -156,7 +170,7 @@ def one_program(pi):
 reports = {}          # group key -> (name, files, summary)
 nviol_units = 0
 stats = {"programs": 0, "units": 0, "reps": 0, "reps_in_range": 0, "reps_panicking": 0, "invalid_generated": 0,
-         "oracle_agree_reps": 0, "reference_disagreement_units": 0, "llgo_deaths": 0, "overlap_reports": 0}
+         "oracle_agree_reps": 0, "reference_disagreement_units": 0, "llgo_deaths": 0, "overlap_reports": 0, "foreign_stderr_lines": 0}
 fam_counts = {}
 oracle_bad = []
 
@@ -210,6 +224,7 @@ def digest(o):
     gu, gorder, gend, gjunk = tr.parse(got.err)
     if "VERIF-MEMCPY-OVERLAP" in got.err:
         stats["overlap_reports"] += 1
+    stats["foreign_stderr_lines"] += len(gjunk)
     complete = got.kind == "exit" and got.rc == 0 and gend
     last = gorder[-1] if gorder else None
     for i, u in enumerate(units):
@@ -281,4 +296,5 @@ chk.cov["rule"] = ("generated fault units (op x indexable kind x index type x co
                    "(else the run is a broken check). evaluations = repetitions compared (+ probe events); distinct = unit signatures (family/kind/form/types/const-var/placement) observed under llgo")
 chk.assumptions += ["-O0 only, linux/amd64 only", "panic message text is not compared, only its class; unit-specific aliases: make with constant cap may report a slice-bounds error, "
                     "a method value of a nil interface may report a failed type assertion (go/ssa lowering)", "reference = go1.24.0 toolchain + generator spec model"]
-chk.finish(floor_eval=(8000 if QUICK else 100000) if NPROG >= 12 else 100, floor_distinct=(300 if QUICK else 1500) if NPROG >= 12 else 20)
+small = NPROG * NUNITS < 5000      # reduced development runs
+chk.finish(floor_eval=100 if small else (8000 if QUICK else 200000), floor_distinct=20 if small else (1000 if QUICK else 4000))
